@@ -437,7 +437,8 @@ theorem compactNode_spec {mk : Nat} (hmk : mk < 2 ^ 31) (ts : Val) : ∀ (n : No
       countLeafKeys (compactNode ts n a).1 = (compactNode ts n a).1.numKeys) ∧
     Cons a (compactNode ts n a).2.1 (pids n) (pids (compactNode ts n a).1) ∧
     (compactNode ts n a).2.1.nextPage = a.nextPage ∧
-    (compactNode ts n a).2.1.leafKeys = a.leafKeys + (countLeafKeys (compactNode ts n a).1 : Int)
+    (compactNode ts n a).2.1.leafKeys = a.leafKeys + (countLeafKeys (compactNode ts n a).1 : Int) ∧
+    (compactNode ts n a).2.1.dataLen = a.dataLen ∧ (compactNode ts n a).2.1.curSz = a.curSz
   | .null, _, _, _, _, h, _, _, _ => absurd h id
   | .leaf p es, b, lo, hi, a, h, hb, hp, ha => by
     obtain ⟨init, x, he⟩ := exists_init_last h.2.1.1
@@ -456,7 +457,7 @@ theorem compactNode_spec {mk : Nat} (hmk : mk < 2 ^ 31) (ts : Val) : ∀ (n : No
     simp only
     refine ⟨ha, ⟨hcomp.sorted hs, ⟨by simp, by rw [lastKeyD_append]; rfl⟩, by simp at hlen ⊢; omega⟩, hcomp, rfl, rfl,
       fun p hp => hp, ?_, ?_, by simp only [pids]; exact ⟨Nat.le_refl _, fun x => by simp, rfl⟩, by first | rfl | trivial,
-      by simp only [countLeafKeys]⟩
+      by simp only [countLeafKeys], by first | rfl | trivial, by first | rfl | trivial⟩
     · simp only [Node.len]
       split <;> simp
     · intro h0
@@ -472,7 +473,7 @@ theorem compactNode_spec {mk : Nat} (hmk : mk < 2 ^ 31) (ts : Val) : ∀ (n : No
     have hlen : es.length ≤ b := h.2.2
     have hnk : (Node.inner p es).numKeys = es.length := Node.numKeys_eq _ (by simp [Node.len]; omega)
     have hpe : ∀ q ∈ pidsEnts es, PosPid q := fun q hq => hp q (by simp [pids, hq])
-    obtain ⟨r1, r2, r3, r4, r5⟩ := compactEnts_spec hmk ts es lo 0 es.length a h.1 hpe ha (by omega) (by omega)
+    obtain ⟨r1, r2, r3, r4, r5, r6, r7⟩ := compactEnts_spec hmk ts es lo 0 es.length a h.1 hpe ha (by omega) (by omega)
     have hpd := r2.pids_dropNil
     have hcd := r2.count_dropNil
     have hs := okEnts_sorted h.1
@@ -484,10 +485,10 @@ theorem compactNode_spec {mk : Nat} (hmk : mk < 2 ^ 31) (ts : Val) : ∀ (n : No
     simp only [hnk]
     generalize compactEnts ts es 0 es.length a = res at *
     obtain ⟨es1, a1⟩ := res
-    simp only at r1 r2 r3 r4 r5 hpd hcd hic d1 d2 d3 d4 d6 d7 ⊢
+    simp only at r1 r2 r3 r4 r5 r6 r7 hpd hcd hic d1 d2 d3 d4 d6 d7 ⊢
     rw [hic]
     simp only
-    refine ⟨r1, ⟨d1, ⟨d6, ?_⟩, by omega⟩, d2, rfl, rfl, ?_, Nat.le_refl _, ?_, ?_, r4, ?_⟩
+    refine ⟨r1, ⟨d1, ⟨d6, ?_⟩, by omega⟩, d2, rfl, rfl, ?_, Nat.le_refl _, ?_, ?_, r4, ?_, r6, r7⟩
     · rw [lastKeyD_of_ne_nil d6 0#64 lo, d7, lastKeyD_of_ne_nil hne lo 0#64]; exact h.2.1.2
     · intro q hq
       simp only [pids, List.mem_cons] at hq ⊢
@@ -507,16 +508,17 @@ theorem compactEnts_spec {mk : Nat} (hmk : mk < 2 ^ 31) (ts : Val) : ∀ (es : L
     (compactEnts ts es i N a).2.fault = none ∧ EntsRel mk ts lo es (compactEnts ts es i N a).1 ∧
     Cons a (compactEnts ts es i N a).2 (pidsEnts es) (pidsEnts (compactEnts ts es i N a).1) ∧
     (compactEnts ts es i N a).2.nextPage = a.nextPage ∧
-    (compactEnts ts es i N a).2.leafKeys = a.leafKeys + (countLeafKeysEnts (compactEnts ts es i N a).1 : Int)
+    (compactEnts ts es i N a).2.leafKeys = a.leafKeys + (countLeafKeysEnts (compactEnts ts es i N a).1 : Int) ∧
+    (compactEnts ts es i N a).2.dataLen = a.dataLen ∧ (compactEnts ts es i N a).2.curSz = a.curSz
   | [], _, _, _, a, _, _, ha, _, _ => by
-    rw [compactEnts]; exact ⟨ha, EntsRel.nil, Cons.same rfl rfl rfl _, rfl, by simp [countLeafKeysEnts]⟩
+    rw [compactEnts]; exact ⟨ha, EntsRel.nil, Cons.same rfl rfl rfl _, rfl, by simp [countLeafKeysEnts], rfl, rfl⟩
   | (ki, c) :: rest, lo, i, N, a, h, hp, ha, hiN, hN => by
     have hloki := okNode_lo_lt_hi h.1
     have hassert : compactKeyAssert ki = true := by
       unfold compactKeyAssert; rw [BitVec.ult_iff_lt]; bv_omega
     have hpc : ∀ q ∈ pids c, PosPid q := fun q hq => hp q (by simp [pidsEnts, hq])
     have hpr : ∀ q ∈ pidsEnts rest, PosPid q := fun q hq => hp q (by simp [pidsEnts, hq])
-    obtain ⟨n1, n2, n3, n4, n5, n6, n7, n8, n9, n10, n11⟩ := compactNode_spec hmk ts c (mk - 1) lo ki a h.1 (by omega) hpc ha
+    obtain ⟨n1, n2, n3, n4, n5, n6, n7, n8, n9, n10, n11, n12, n13⟩ := compactNode_spec hmk ts c (mk - 1) lo ki a h.1 (by omega) hpc ha
     have hcne : c ≠ .null := okNode_ne_null h.1
     have hlen' := okNode_len n2
     have hrem : (compactNode ts c a).2.2 < 2 ^ 63 := by omega
@@ -526,7 +528,7 @@ theorem compactEnts_spec {mk : Nat} (hmk : mk < 2 ^ 31) (ts : Val) : ∀ (es : L
     simp only [hassert, Bool.not_true, Bool.false_eq_true, if_false]
     generalize hcn : compactNode ts c a = res at *
     obtain ⟨c', a1, rem⟩ := res
-    simp only at n1 n2 n3 n4 n5 n6 n7 n8 n9 n10 n11 hlen' hrem hdrop ⊢
+    simp only at n1 n2 n3 n4 n5 n6 n7 n8 n9 n10 n11 n12 n13 hlen' hrem hdrop ⊢
     simp only [hdrop]
     by_cases hd : rem = 0 ∧ i + 1 < N
     · simp only [hd, and_self, decide_true, if_true]
@@ -551,23 +553,25 @@ theorem compactEnts_spec {mk : Nat} (hmk : mk < 2 ^ 31) (ts : Val) : ∀ (es : L
           omega
       have hlk2 : a2.leafKeys = a.leafKeys := by rw [← ha2]; simp only; rw [n11, t4]; omega
       have hnp2 : a2.nextPage = a.nextPage := by rw [← ha2]; exact n10
-      obtain ⟨u1, u2, u3, u4, u5⟩ := compactEnts_spec hmk ts rest ki (i + 1) N a2 h.2 hpr hfa2
+      have hdl2 : a2.dataLen = a.dataLen := by rw [← ha2]; exact n12
+      have hcs2 : a2.curSz = a.curSz := by rw [← ha2]; exact n13
+      obtain ⟨u1, u2, u3, u4, u5, u6, u7⟩ := compactEnts_spec hmk ts rest ki (i + 1) N a2 h.2 hpr hfa2
         (by simp at hiN ⊢; omega) hN
       generalize compactEnts ts rest (i + 1) N a2 = res2 at *
       obtain ⟨rest', a3⟩ := res2
-      simp only at u1 u2 u3 u4 u5 ⊢
-      refine ⟨u1, EntsRel.drop hrne hnil u2, ?_, by rw [u4, hnp2], ?_⟩
+      simp only at u1 u2 u3 u4 u5 u6 u7 ⊢
+      refine ⟨u1, EntsRel.drop hrne hnil u2, ?_, by rw [u4, hnp2], ?_, by rw [u6, hdl2], by rw [u7, hcs2]⟩
       · have := hfree.seq u3
         simpa [pidsEnts, pids] using this
       · simp only [countLeafKeysEnts, countLeafKeys]
         rw [u5, hlk2]; omega
     · simp only [hd, decide_false, Bool.false_eq_true, if_false]
-      obtain ⟨u1, u2, u3, u4, u5⟩ := compactEnts_spec hmk ts rest ki (i + 1) N a1 h.2 hpr n1
+      obtain ⟨u1, u2, u3, u4, u5, u6, u7⟩ := compactEnts_spec hmk ts rest ki (i + 1) N a1 h.2 hpr n1
         (by simp at hiN ⊢; omega) hN
       generalize compactEnts ts rest (i + 1) N a1 = res2 at *
       obtain ⟨rest', a3⟩ := res2
-      simp only at u1 u2 u3 u4 u5 ⊢
-      refine ⟨u1, EntsRel.keep n2 n3 ?_ n6 u2, ?_, by rw [u4, n10], ?_⟩
+      simp only at u1 u2 u3 u4 u5 u6 u7 ⊢
+      refine ⟨u1, EntsRel.keep n2 n3 ?_ n6 u2, ?_, by rw [u4, n10], ?_, by rw [u6, n12], by rw [u7, n13]⟩
       · rw [n4]; exact hpc _ (pid_mem_pids hcne)
       · have := n9.seq u3
         simpa [pidsEnts] using this
@@ -585,10 +589,11 @@ theorem deleteBelow_spec {cfg : Cfg} (hc : CfgOk cfg) (t : Tree) (hinv : TreeInv
       Cons t.a (deleteBelow t ts).a (pids t.root) (pids (deleteBelow t ts).root) ∧
       (deleteBelow t ts).a.nextPage = t.a.nextPage ∧
       (deleteBelow t ts).a.leafKeys = countLeafKeys (deleteBelow t ts).root ∧
-      (deleteBelow t ts).root.pid = t.root.pid := by
+      (deleteBelow t ts).root.pid = t.root.pid ∧
+      (deleteBelow t ts).a.dataLen = t.a.dataLen ∧ (deleteBelow t ts).a.curSz = t.a.curSz := by
   have hmk := hc.lt
   have hge := hc.ge4
-  obtain ⟨n1, n2, n3, n4, n5, n6, n7, n8, n9, n10, n11⟩ :=
+  obtain ⟨n1, n2, n3, n4, n5, n6, n7, n8, n9, n10, n11, n12, n13⟩ :=
     compactNode_spec hmk ts t.root (cfg.maxKeys - 1) 0#64 absoluteMax { t.a with leafKeys := 0 } hinv.ok (by omega) hp
       hinv.nofault
   have hlen := okNode_len n2
@@ -614,7 +619,7 @@ theorem deleteBelow_spec {cfg : Cfg} (hc : CfgOk cfg) (t : Tree) (hinv : TreeInv
   have hs := (okNode_toList cfg.maxKeys t.root _ _ _ hinv.ok).1
   unfold deleteBelow
   simp only [hassert, if_true]
-  refine ⟨⟨by rw [n5]; exact hinv.root_inner, n2, n1⟩, ?_, n6, ⟨n9.1, n9.2, n9.3⟩, n10, by rw [n11]; simp, n4⟩
+  refine ⟨⟨by rw [n5]; exact hinv.root_inner, n2, n1⟩, ?_, n6, ⟨n9.1, n9.2, n9.3⟩, n10, by rw [n11]; simp, n4, n12, n13⟩
   intro k
   exact n3.lookup hs k
 
